@@ -23,7 +23,8 @@ CFG = dict(
     translators=[("lockscan", "Gen/Gen_LockEvents.v")],
     extra=["c20hooks.race_stress"],
     shard=120,
-    rule="round 5: the DEFAULT UI (stdUI) printed to by 1-16 goroutines and by a 24-source invocation with Options.UI nil (whole lines, compared with "
+    rule="round 6: overlapping web requests with different no-match filters, the errors box of every page parsed back and compared with the "
+         "message list of its own request; round 5: the DEFAULT UI (stdUI) printed to by 1-16 goroutines and by a 24-source invocation with Options.UI nil (whole lines, compared with "
          "one-at-a-time runs); lock-free settings readers and page loads during saves with the settings file regular / symlinked / dangling / in a symlinked directory; "
          "end-to-end: driver.PProf with a real flag set and the DEFAULT transport on 2-8 sources of mixed kinds (http, https+insecure, https with an "
          "untrusted certificate, files) with the -proto output re-read; 2-3 perf.data inputs converted by a fake perf_to_profile with staggered "
